@@ -301,6 +301,14 @@ class ConnectionPool(RequestInterface):
         """
         closing_connections = []
 
+        def is_unused(connection: ConnectionInterface) -> bool:
+            # An idle connection that a request has already been assigned to
+            # is about to be used: it must not be closed as surplus, nor
+            # evicted to make room for another connection.
+            return connection.is_idle() and not any(
+                request.connection is connection for request in self._requests
+            )
+
         # First we handle cleaning up any connections that are closed,
         # have expired their keep-alive, or surplus idle connections.
         for connection in list(self._connections):
@@ -312,12 +320,12 @@ class ConnectionPool(RequestInterface):
                 self._connections.remove(connection)
                 closing_connections.append(connection)
             elif (
-                connection.is_idle()
+                is_unused(connection)
                 and len(
                     [
                         connection
                         for connection in self._connections
-                        if connection.is_idle()
+                        if is_unused(connection)
                     ]
                 )
                 > self._max_keepalive_connections
@@ -336,7 +344,7 @@ class ConnectionPool(RequestInterface):
                 if connection.can_handle_request(origin) and connection.is_available()
             ]
             idle_connections = [
-                connection for connection in self._connections if connection.is_idle()
+                connection for connection in self._connections if is_unused(connection)
             ]
 
             # There are three cases for how we may be able to handle the request:
